@@ -826,6 +826,26 @@ func gridInteract() []group {
 			add(t, d, nil)
 		}
 	}
+	// (14) state set up by one construct and read by another: `last` after a probing subscript with a following step inside a
+	// subscript filter; `$`- and `$var`-rooted operands below .**; the keyvalue base object and id counter after a probe or a failed operand
+	ldoc := map[string]any{"a": []any{float64(10), float64(20), float64(30), float64(40)}, "b": []any{map[string]any{"x": float64(1), "k": float64(1)}, map[string]any{"k": float64(2)}}, "i": float64(0), "j": []any{float64(0), float64(1), float64(2), float64(3)}}
+	for _, t := range []string{"$.a[$.i ? (exists($.b[0].x)) to last]", "$.a[$.i ? (exists($.b[0].x)), last]", "$.a[$.j[*] ? (exists($.b[0].k) && @ == last)]", "$.a[$.j[*] ? (@ == last && exists($.b[0].k))]",
+		"$.a[$.i ? (exists($.b[0])) to last]", "$.a[($.i ? (exists($.b[last].k))) + last]", "$.a[$.j[*] ? (exists($.b[0 to 1].k) && @ == last)]", "$.a[$.i ? (exists($.b[5].x)) to last]", "$.a[0, last] ? (exists($.b[0].x))",
+		"$.j[$.j[*] ? (exists($.b[0].k)) ? (@ == last)]"} {
+		add(t, ldoc, nil)
+	}
+	for _, d := range []any{map[string]any{"a": map[string]any{"b": float64(1)}, "lim": float64(5)}, []any{float64(1), []any{float64(2)}}, map[string]any{"nokey": float64(1), "a": []any{float64(1)}}} {
+		for _, t := range []string{"$.** ? (!exists($.nokey))", "$.** ? (!(@ == $.nokey))", "$.** ? ((@ == $.lim.x) is unknown)", "$.** ? (!($n.size() > 1))", "$.** ? (($n.size() > 1) is unknown)", "$.** ? (!exists($n.x))",
+			"$.** ? (!exists($.a[5]))", "$.** ? (($m.a == 1) is unknown)", "$.**{1 to last} ? (!exists($.lim.x))", "$ ? (!exists($.nokey))", "$.* ? (!($n.size() > 1))", "$.** ? (!exists(@.nokey))"} {
+			add(t, d, map[string]any{"n": float64(5), "m": float64(7)})
+		}
+	}
+	kdoc := map[string]any{"o": map[string]any{"a": float64(1), "b": float64(2)}, "s": "x", "a": float64(1)}
+	for _, t := range []string{"$v ? (($.s.double() > 1) is unknown).keyvalue()", "$.o.keyvalue() ? (($.s.double() > 1) is unknown).keyvalue()", "$ ? (exists(@.keyvalue().key)).keyvalue().keyvalue()",
+		"$.o.keyvalue().keyvalue() ? (@.id >= 20000000000)", "$.o.keyvalue().keyvalue() ? (@.id < 10000000000)", "$.o ? (exists(@.keyvalue().keyvalue() ? (@.id >= 20000000000)))", "$v.keyvalue()",
+		"$v ? (($.s.double() > 1) is unknown || @.k == 1).keyvalue().key", "$.o.keyvalue() ? (exists($.s.a) || true).keyvalue()", "$.o ? (exists(@.keyvalue().value)).keyvalue().keyvalue().key"} {
+		add(t, kdoc, map[string]any{"v": map[string]any{"k": float64(1)}})
+	}
 	// (13) the right operand of starts with is a variable bound to something that is not a string (no unwrapping on that side)
 	for _, pv := range []any{[]any{"ab"}, []any{}, []any{"zz", "ab"}, []any{[]any{"ab"}}, "ab", "zz", float64(1), nil, map[string]any{"a": "ab"}, []any{"ab", float64(1)}} {
 		vars := map[string]any{"p": pv}
